@@ -12,7 +12,10 @@ EXTENDS Pipeline
 CONSTANTS Agreement,    \* TRUE: the environment's decisions agree (C02/C03); FALSE: any honest node may decide anything
           MaxBad,       \* nodes whose validator client is defective
           MaxCrash,
-          ByzClaims     \* "own": Byzantine partials claim their own share; "any": also every foreign share index
+          ByzClaims,    \* "own": Byzantine partials claim their own share; "any": also every foreign share index
+          DecCands,     \* candidates consensus may hand to a node (a subset of Cands; Byzantine shares sign all of Cands)
+          HonestBatches \* "any": a validator client signs any non-empty subset of the validators per call;
+                        \* "all": always all of them (what keeps NV = 2 tractable: Byzantine batches stay arbitrary)
 \* what C02/C03 establish: a node's decision equals every earlier honest decision (a call on a node that already holds
 \* a value is the "conflicting re-store" the DutyDB must refuse)
 AgreeOK(i, c) == Agreement => (stored[i] = "none" => decided \subseteq {c})
@@ -20,8 +23,8 @@ Claims(z) == IF ByzClaims = "own" THEN {z} ELSE Nodes
 ByzBatches(z) == UNION {[S -> [cand : Cands, claim : Claims(z)]] : S \in SUBSET Vals \ {{}}}
 BadNodes == {i \in Honest : \E v \in Vals : \E e \in psdb[i][v] : e.share = i /\ ~e.good}
 MCNext ==
-  \/ \E i \in Honest, c \in Cands : AgreeOK(i, c) /\ Decide(i, c)
-  \/ \E i \in Honest, vs \in SUBSET Vals \ {{}}, good \in BOOLEAN :
+  \/ \E i \in Honest, c \in DecCands : AgreeOK(i, c) /\ Decide(i, c)
+  \/ \E i \in Honest, vs \in (IF HonestBatches = "all" THEN {Vals} ELSE SUBSET Vals \ {{}}), good \in BOOLEAN :
        /\ ~good => (i \in BadNodes \/ Cardinality(BadNodes) < MaxBad)
        /\ VCSign(i, vs, good)
   \/ \E k \in DOMAIN outbox, to \in Honest : Deliver(k, to)
